@@ -330,7 +330,13 @@ class Parser(RstParser):
             for root in (document, *document.footnotes, *document.autofootnotes):
                 for node in list(root.findall(nodes.raw)):
                     warning = document.reporter.warning("Raw content disabled.")
-                    node.parent.replace(node, warning)
+                    # the message is a body element: put it after the enclosing text
+                    # element (title, paragraph, ...), not into its text
+                    anchor = node
+                    while isinstance(anchor.parent, nodes.TextElement):
+                        anchor = anchor.parent
+                    anchor.parent.insert(anchor.parent.index(anchor) + 1, warning)
+                    node.parent.remove(node)
 
         # like the docutils rST parser, restore the "default" default role
         # (which may have been changed by a `default-role` directive)
